@@ -740,6 +740,51 @@ func (vc *FnVC) checkAts(st *State, in ssa.Instruction) {
 	}
 }
 
+// checkGuards: `guards T.f by EXPR` -- every place where the body takes the address of field f of a T (to read it, write
+// it, or use the map / slice stored in it) is reached only while EXPR(self) holds, self being that object.
+func (vc *FnVC) checkGuards(st *State, x *ssa.FieldAddr) {
+	if vc.unit == nil || len(vc.unit.Guards) == 0 {
+		return
+	}
+	pt, ok := x.X.Type().Underlying().(*types.Pointer)
+	if !ok {
+		return
+	}
+	stt, ok := pt.Elem().Underlying().(*types.Struct)
+	if !ok {
+		return
+	}
+	tn := typeName(pt.Elem())
+	if i := strings.LastIndex(tn, "."); i >= 0 {
+		tn = tn[i+1:]
+	}
+	fname := stt.Field(x.Field).Name()
+	for _, gs := range vc.unit.Guards {
+		if gs.Type != tn || gs.Field != fname {
+			continue
+		}
+		var li *loopInfo
+		for _, l := range vc.loops {
+			if l.blocks[x.Block()] && (li == nil || len(l.blocks) < len(li.blocks)) {
+				li = l
+			}
+		}
+		env := vc.envAt(st, li)
+		env.bodyLocals = true
+		env.vars["self"] = vc.val(st, x.X)
+		t, err := vc.evalBool(env, gs.C.E)
+		if err != nil {
+			vc.contractError("guards %s.%s: %v", gs.Type, gs.Field, err)
+			continue
+		}
+		lbl := gs.C.Name
+		if lbl == "" {
+			lbl = "held"
+		}
+		vc.oblige(st, "guarded", gs.Type+"."+gs.Field+"/"+lbl, t, "access to "+gs.Type+"."+gs.Field+" only while "+gs.C.Text)
+	}
+}
+
 func (vc *FnVC) runBlock(b *ssa.BasicBlock, st *State) {
 	for _, in := range b.Instrs {
 		vc.curInstr = in
@@ -945,6 +990,7 @@ func (vc *FnVC) instr(st *State, in ssa.Instruction) {
 		}
 		vc.vals[x] = f
 	case *ssa.FieldAddr:
+		vc.checkGuards(st, x)
 		vc.vals[x] = vc.fieldAddr(st, x)
 	case *ssa.IndexAddr:
 		vc.vals[x] = vc.indexAddr(st, x)
